@@ -93,11 +93,16 @@ def select(structs, k, rng):
             break
         chosen.append(best)
         todo -= feats[best]
+    # fill up; structures of the known defect class (see notes) are capped: they only re-confirm it
+    known = lambda s: bool(s["ident"]) and any(x[0] > 0 for x in s["fin"]) and not s["swapaligned"]
+    nknown = sum(known(structs[i]) for i in chosen)
     for i in order:
         if len(chosen) >= k:
             break
-        if i not in chosen:
-            chosen.append(i)
+        if i in chosen or (known(structs[i]) and nknown >= 3):
+            continue
+        nknown += known(structs[i])
+        chosen.append(i)
     return sorted(chosen)
 
 
@@ -210,10 +215,10 @@ def judge(ctx, s, res, words):
             ctx.violation("%s:%s" % (key, ".".join(f["applied"])), detail)
 
 
-def run(ctx, only=None):
+def run(ctx, only=None, tier=None, fallback=None):
     from ..prelude import import_tf_quiet
 
-    quick = ctx.tier == "quick"
+    quick = (tier or ctx.tier) == "quick"
     maxword = 2 if quick else 3
     thin = 4 if quick else 1
     nsel = 40
@@ -249,6 +254,12 @@ def run(ctx, only=None):
     rng = np.random.default_rng(ctx.seed % (2**32))
     if only is not None:
         chosen = [i for i, s in enumerate(structs) if S.skey(s) == only]
+        if not chosen and fallback is not None:
+            # recorded with another seed (another slice of the product): replay the recorded structure itself
+            fallback["enabled"] = sorted(tuple(g) for g in fallback["enabled"])
+            fallback["ident"] = [sorted(pr) for pr in fallback["ident"]]
+            structs = structs + [fallback]
+            chosen = [len(structs) - 1]
     elif quick:
         chosen = select(structs, nsel, rng)
     else:
@@ -313,15 +324,6 @@ def replay(ctx, path):
     s = rec["detail"].get("structure")
     if not s:
         return run(ctx)
-    from ..prelude import import_tf_quiet
-
-    import_tf_quiet()
+    s["ident"] = [sorted(pr) for pr in s["ident"]]
     s["enabled"] = sorted(tuple(g) for g in s["enabled"])
-    maxword = 2 if rec.get("tier", "quick") == "quick" else 3
-    words = S.words_upto(s["enabled"], maxword)
-    res = evaluate(ctx, s, words, 64 if rec.get("tier", "quick") == "quick" else 32)
-    judge(ctx, s, res, words)
-    ctx.count(len(words), distinct_key=("replay", res["key"]))
-    ctx.count(0, distinct_key=("replay2", res["key"]))
-    ctx.sample({"replayed": S.describe(s), "failing_words": len(res.get("fails", []))})
-    ctx.cov["rule"] = "replay of one recorded structure with all its words"
+    run(ctx, only=S.skey(s), tier=rec.get("tier"), fallback=s)
